@@ -808,6 +808,7 @@ def judge(ck, events, histories, label, api_cases=None):
         return
     verdicts = ck.trace("BuildPhases_Trace", events, label=label, timeout=1500)
     by = {(e["tid"], e["i"]): e for e in events}
+    judged_wrong = {v["tid"] for v in verdicts if v["clause"] != "OutsideDomain"}
     for v in verdicts:
         e = by[(v["tid"], v["i"])]
         if e["op"] == "api":
@@ -815,6 +816,8 @@ def judge(ck, events, histories, label, api_cases=None):
             continue
         h = histories[v["tid"]]
         if v["clause"] == "OutsideDomain":
+            if v["tid"] in judged_wrong:
+                continue  # the code itself left the domain (e.g. main() of pebuild ordered its calls wrongly): reported there
             raise tlc.MachineryError(f"generator left the specification's domain: {e}")
         k = h.k_of[v["i"]]
         ck.violation(v["clause"], dict(op=e["op"], stage=e.get("stage", "-"), kind=h.cfg["kind"], cfg=h.cfg0, real=h.real,
